@@ -760,7 +760,7 @@ def run(ctx):
     from . import c10, c08
 
     def conv_rules(scratch):
-        c10.rule_bij_desc_has(scratch, c10.Conv(scratch))
+        c10.rule_converter(scratch)
     ctx.adopt_from("C10", [(conv_rules, ())], {"C10.bij": "C03.payload", "C10.has": "C03.payload"})
     # key requests, group-info requests and messages are correlated by id: ids unique across entity classes (C08.id), adopted
     ctx.adopt_from("C08", [(c08.rule_id, ())], {"C08.id": "C03.ids"})
